@@ -43,6 +43,9 @@ type c17case struct {
 	Flip    int    `json:"flip"`
 	FaultAt int    `json:"fault_at"`
 	B       int    `json:"b"`
+	Step    int    `json:"step"`  // read schedule: at most Step bytes per Read call (0: as many as asked)
+	Eager   bool   `json:"eager"` // the final error (io.EOF or the injected fault) comes together with the last bytes (n > 0)
+	NoData  bool   `json:"nodata"` // probe: only the number of decoded bytes is sent back (nrec), not the bytes
 }
 
 type c17obs struct {
@@ -60,19 +63,28 @@ type c17obs struct {
 
 var errC17Injected = errors.New("c17: injected read fault")
 
-// c17reader delivers data[:limit] then fails with err for ever (io.EOF when no fault is injected).
+// c17reader delivers data[:limit] then fails with err for ever (io.EOF when no fault is injected);
+// step > 0: at most step bytes per call; eager: the error is returned together with the last bytes.
 type c17reader struct {
-	data []byte
-	pos  int
-	err  error
+	data  []byte
+	pos   int
+	err   error
+	step  int
+	eager bool
 }
 
 func (r *c17reader) Read(p []byte) (int, error) {
 	if r.pos >= len(r.data) {
 		return 0, r.err
 	}
+	if r.step > 0 && r.step < len(p) {
+		p = p[:r.step]
+	}
 	n := copy(p, r.data[r.pos:])
 	r.pos += n
+	if r.eager && r.pos >= len(r.data) {
+		return n, r.err
+	}
 	return n, nil
 }
 
@@ -96,7 +108,7 @@ func c17source(c c17case) (io.Reader, error) {
 	if err != nil {
 		return nil, err
 	}
-	r := &c17reader{data: b, err: io.EOF}
+	r := &c17reader{data: b, err: io.EOF, step: c.Step, eager: c.Eager}
 	if c.FaultAt >= 0 {
 		if c.FaultAt < len(b) {
 			r.data = b[:c.FaultAt]
@@ -157,7 +169,10 @@ func c17probe(c c17case) (o c17obs) {
 			break
 		}
 	}
-	o = c17obs{Kind: "ok", Open: "ok", Data: base64.StdEncoding.EncodeToString(out.Bytes()), FinText: fin.Error()}
+	o = c17obs{Kind: "ok", Open: "ok", FinText: fin.Error(), NRec: out.Len()}
+	if !c.NoData {
+		o.Data = base64.StdEncoding.EncodeToString(out.Bytes())
+	}
 	switch {
 	case fin == io.EOF:
 		o.Fin = "eof"
